@@ -446,3 +446,25 @@ Proof.
   - exact R1.
   - intros; apply R2; lia.
 Qed.
+
+Lemma count_app_local x l1 l2 : count x (l1 ++ l2) = count x l1 + count x l2.
+Proof. induction l1 as [|y l1 IH]; cbn [app count]; [lia|]. rewrite IH. lia. Qed.
+
+(** stun_timer_start_reliable: the N = 0 schedule — however it is polled, never a RETRANSMIT; the first expiry is TIMEOUT and stays *)
+Lemma reliable_never_retransmits T now0 ps :
+  1 <= T <= 10000 -> wf_now now0 -> sorted_from (us now0) ps ->
+  let rs := fst (polls (timer_start_reliable now0 T) ps) in
+  count RETRANSMIT rs = 0 /\ exists pre n, rs = pre ++ repeat TIMEOUT n /\ count TIMEOUT pre = 0 /\ count RETRANSMIT pre = 0.
+Proof.
+  intros HT Hw Hs rs.
+  assert (Hp : params_ok T 0) by (unfold params_ok; lia).
+  pose proof (run_from_start T 0 now0 ps Hp Hw Hs) as H. cbv zeta in H.
+  destruct H as (Hc & pre & n & Hrs & Hto & Hre).
+  assert (Hn : nmax 0 = 1) by reflexivity. rewrite Hn in Hc.
+  assert (Hge : 0 <= count RETRANSMIT (fst (polls (timer_start now0 T 0) ps))) by apply count_nonneg.
+  assert (Hz : count RETRANSMIT (fst (polls (timer_start now0 T 0) ps)) = 0) by lia.
+  unfold rs, timer_start_reliable. split; [exact Hz|].
+  exists pre, n. repeat split; try assumption.
+  rewrite Hrs in Hz. rewrite count_app_local in Hz.
+  pose proof (count_nonneg RETRANSMIT pre). pose proof (count_nonneg RETRANSMIT (repeat TIMEOUT n)). lia.
+Qed.
